@@ -48,3 +48,25 @@ fn p_citer_view_owned_items() {
     assert!(unsafe { DROPS } == 1, "C16 the item was dropped exactly once, by the caller");
     kani::cover!(true, "reaches end");
 }
+
+extern "C" fn c_iter_next(state: *mut c_void, out: *mut u64) -> i32 {
+    // a C-implemented iterator over a countdown: 0 + item while state > 0, afterwards a NEGATIVE code
+    let st = state as *mut u64;
+    unsafe { if *st == 0 { -1 } else { *st -= 1; *out = *st; 0 } }
+}
+#[kani::proof]
+#[kani::unwind(5)]
+fn p_citer_foreign_built() {
+    // an iterator BUILT BY A C CALLER from the published fields: any non-zero code (also a negative one) ends it
+    let n: u64 = kani::any();
+    kani::assume(n <= 2);
+    let mut state = n;
+    let view = ItView::<u64> { iter: &mut state as *mut u64 as *mut c_void, func: c_iter_next };
+    let mut it: CIterator<u64> = unsafe { core::mem::transmute_copy(&view) };
+    let mut got = 0u64;
+    let mut k = 0;
+    while k < 3 { if let Some(v) = it.next() { assert!(v == n - 1 - got, "C16 items come out as produced"); got += 1; } k += 1; }
+    assert!(got == n, "C16 exactly the items for which the function returned 0; a negative code ends the iteration");
+    assert!(it.next().is_none(), "C16 stays ended");
+    kani::cover!(n == 2, "two items");
+}
